@@ -19,7 +19,12 @@ type c19 struct{}
 
 func init() { engine.Register(c19{}) }
 
-func (c19) PostGenerate(r *engine.Rand, sc *engine.Scenario) { chooseEnv(r, sc) }
+func (c19) PostGenerate(r *engine.Rand, sc *engine.Scenario) {
+	chooseEnv(r, sc)
+	if r.Chance(1, 3) {
+		addOtherUnitEvents(r, sc, exclSound)
+	}
+}
 
 func (c19) ID() string { return "C19" }
 
@@ -255,6 +260,9 @@ func (c19) Execute(sc *engine.Scenario) *engine.Result {
 		for ei < len(sc.Events) && t0+sc.Events[ei].At <= m.N && ok {
 			ev := sc.Events[ei]
 			ei++
+			if applyOther(m, &ev, res) {
+				continue
+			}
 			ph := (m.N - t0) % 2048
 			near := ph <= 2 || ph >= 2046
 			if near {
